@@ -9,7 +9,12 @@ What is regenerated from the snapshot on every run:
   * the primitive `Type` literals of type.c (size, align, is_unsigned), pointer_to / enum_type / struct_type literals,
     the shape of array_of,
   * the `_Alignas` arm of declspec (pinned; the field of the operand type that `_Alignas(type-name)` reads is translated),
-    `mem->align = attr.align ? attr.align : mem->ty->align` in struct_members, the `var->align` assignments, `aligned(N)`,
+    `mem->align = attr.align ? attr.align : mem->ty->align` in struct_members, the `var->align` assignments,
+  * attribute_list's `aligned(N)` arm: pinned frame; the guard of its diagnostic (`n < 0 || n > (1 << 28) || (n & (n - 1))`, each atom
+    translated, bounds evaluated) and `if (n) ty->align = n;` become `alignedAttrBad` / `alignedAttrApply`; struct_union_decl's
+    order struct_type(); attribute_list; struct_members; attribute_list is pinned,
+  * struct_members' bit-field arm (pinned: `if (!is_integer(mem->ty)) error_tok(..)` before `mem->is_bitfield = true`) and the list of
+    TypeKinds type.c `is_integer` accepts (`integerKinds`),
   * align_to (codegen.c) and align_down (parse.c) as Lean functions on Int with C's truncating division.
 Anything that does not have exactly the expected shape raises ExtractError."""
 import re
@@ -110,9 +115,60 @@ def generate(repo):
     if len(re.findall(r'if \(attr && attr->align\)\s*var->align = attr->align;', parse)) != 1 or \
        len(re.findall(r'if \(attr->align\)\s*var->align = attr->align;', parse)) != 2:
         raise ExtractError('parse.c: the guards of `var->align = attr->align` changed')
-    # attribute_list: aligned(N) -> ty->align = const_expr
-    if len(re.findall(r'if \(consume\(&tok, tok, "aligned"\)\) \{ tok = skip\(tok, "\("\); ty->align = const_expr\(&tok, tok\); tok = skip\(tok, "\)"\); continue; \}', norm(parse))) != 1:
+    # attribute_list: aligned(N).  Pinned frame; the guard of the diagnostic and the assignment are translated:
+    #   int64_t n = const_expr(..); if (<atom> || <atom> ...) error_tok(start, "<msg>"); if (n) ty->align = n;
+    al_body = norm(function_body(parse, r'^static\s+Token\s*\*\s*attribute_list\s*\(\s*Token\s*\*\s*tok\s*,\s*Type\s*\*\s*ty\s*\)\s*\{', 'attribute_list'))
+    mal = re.findall(r'if \(consume\(&tok, tok, "aligned"\)\) \{ tok = skip\(tok, "\("\); Token \*start = tok; int64_t n = const_expr\(&tok, tok\); '
+                     r'if \((.+?)\) error_tok\(start, "([^"]*)"\); if \(n\) ty->align = n; tok = skip\(tok, "\)"\); continue; \}', al_body)
+    if len(mal) != 1:
         raise ExtractError('parse.c: attribute_list aligned(N) arm changed')
+    if len(re.findall(r'ty->align\s*=', al_body)) != 1 or len(re.findall(r'"aligned"', al_body)) != 1:
+        raise ExtractError('parse.c: attribute_list assigns ty->align / tests "aligned" more than once')
+    al_cond, al_msg = mal[0]
+    if al_msg != 'alignment must be a power of two no larger than 2^28':
+        raise ExtractError('parse.c: the aligned(N) diagnostic changed: ' + al_msg)
+    al_atoms = []          # Lean Bool expressions over `n : Int` (C: int64_t n; every atom is evaluated left to right, `||` short-circuits)
+    al_bounds = {}
+    for k_atom, atom in enumerate(al_cond.split('||')):
+        atom = atom.strip()
+        mm = re.fullmatch(r'n (<|>|<=|>=) (\(.+\)|\d+)', atom)
+        if mm:
+            v = const_expr(mm.group(2).strip('()'), {}, 'aligned(N) bound')
+            al_atoms.append(f'decide (n {({"<": "<", ">": ">", "<=": "≤", ">=": "≥"})[mm.group(1)]} {v})')
+            al_bounds[mm.group(1)] = v
+        elif atom == '(n & (n - 1))':
+            # int64_t two's complement; reached only when the earlier atoms are false
+            if k_atom == 0 or '<' not in al_bounds:
+                raise ExtractError('parse.c: aligned(N): `n & (n - 1)` is evaluated before the sign of n is tested')
+            al_atoms.append('(BitVec.ofInt 64 n &&& BitVec.ofInt 64 (n - 1)) != 0#64')
+        else:
+            raise ExtractError('parse.c: aligned(N): guard atom of unknown shape: ' + atom)
+    if set(al_bounds) != {'<', '>'}:
+        raise ExtractError('parse.c: aligned(N): expected one lower and one upper bound test, found: ' + al_cond)
+    # struct_members: a bit-field must have an integer type (the guard sits between `mem->align = ..` and `mem->is_bitfield = true`)
+    sm_body = norm(function_body(parse, r'^static\s+void\s+struct_members\s*\(\s*Token\s*\*\*\s*rest\s*,\s*Token\s*\*\s*tok\s*,\s*Type\s*\*\s*ty\s*\)\s*\{', 'struct_members'))
+    mbf = re.findall(r'mem->ty = declarator\(&tok, tok, basety\); .*?mem->align = attr\.align \? attr\.align : mem->ty->align; '
+                     r'if \(equal\(tok, ":"\)\) \{ if \(!(\w+)\(mem->ty\)\) error_tok\(tok, "([^"]*)"\); mem->is_bitfield = true; '
+                     r'mem->bit_width = const_expr\(&tok, tok->next\); \} cur = cur->next = mem;', sm_body)
+    if len(mbf) != 1 or len(re.findall(r'is_bitfield\s*=', sm_body)) != 1:
+        raise ExtractError('parse.c: struct_members: the bit-field arm changed')
+    if mbf[0] != ('is_integer', 'bit-field has non-integer type'):
+        raise ExtractError('parse.c: struct_members: the guard of the bit-field arm changed: ' + repr(mbf[0]))
+    isint = norm(function_body(typec, r'^bool\s+is_integer\s*\(\s*Type\s*\*\s*ty\s*\)\s*\{', 'is_integer'))
+    mi = re.fullmatch(r'TypeKind k = ty->kind; return ((?:k == TY_\w+(?: \|\| )?)+);', isint)
+    if not mi:
+        raise ExtractError('type.c: is_integer has an unknown shape: ' + isint)
+    integer_kinds = re.findall(r'k == (TY_\w+)', mi.group(1))
+    kinds_hdr = must(r'typedef\s+enum\s*\{([^}]*)\}\s*TypeKind\s*;', hdr, 'enum TypeKind in chibicc.h')
+    all_kinds = [x.strip() for x in kinds_hdr.group(1).split(',') if x.strip()]
+    for kname in integer_kinds + ['TY_PTR', 'TY_ENUM', 'TY_ARRAY', 'TY_STRUCT', 'TY_UNION']:
+        if kname not in all_kinds:
+            raise ExtractError(f'chibicc.h: TypeKind has no {kname}')
+    # struct_union_decl: ty->align starts as struct_type() left it; attributes before the tag and after the member list
+    sud = norm(function_body(parse, r'^static\s+Type\s*\*\s*struct_union_decl\s*\(\s*Token\s*\*\*\s*rest\s*,\s*Token\s*\*\s*tok\s*\)\s*\{', 'struct_union_decl'))
+    if not sud.startswith('Type *ty = struct_type(); tok = attribute_list(tok, ty);') or \
+       'struct_members(&tok, tok, ty); *rest = attribute_list(tok, ty);' not in sud or len(re.findall(r'attribute_list\(', sud)) != 2:
+        raise ExtractError('parse.c: struct_union_decl no longer runs struct_type(); attribute_list; struct_members; attribute_list')
 
     # ---- the loop must be `while (is_typename(tok)) {`, the switch is inside it and followed by tok = tok->next
     if not re.search(r'while\s*\(\s*is_typename\s*\(\s*tok\s*\)\s*\)\s*\{', body):
@@ -273,6 +329,15 @@ def generate(repo):
     o += 'def alignasOfConst (v : Int) : Int := v\n\n'
     o += '/-- struct_members (both sites): mem->align = attr.align ? attr.align : mem->ty->align -/\n'
     o += 'def memberAlign (attrAlign tyAlign : Int) : Int := if attrAlign ≠ 0 then attrAlign else tyAlign\n\n'
+    o += '/-- attribute_list, `aligned(n)` with `int64_t n = const_expr(..)`: the guard of\n'
+    o += '    `error_tok(start, "%s")`:\n    `%s` -/\n' % (al_msg, al_cond)
+    o += 'def alignedAttrBad (n : Int) : Bool :=\n  ' + ' || '.join(al_atoms) + '\n\n'
+    o += f'/-- the bounds tested by that guard: `n < {al_bounds["<"]}`, `n > {al_bounds[">"]}` -/\n'
+    o += f'def ALIGNED_MIN : Int := {al_bounds["<"]}\ndef ALIGNED_MAX : Int := {al_bounds[">"]}\n\n'
+    o += '/-- attribute_list, `aligned(n)` after the guard: `if (n) ty->align = n;`  (cur = ty->align before the attribute) -/\n'
+    o += 'def alignedAttrApply (cur n : Int) : Int := if n ≠ 0 then n else cur\n\n'
+    o += '/-- type.c `is_integer`: the kinds it accepts; struct_members: `if (!is_integer(mem->ty)) error_tok(tok, "%s")` in the bit-field arm -/\n' % mbf[0][1]
+    o += 'def integerKinds : List String := [' + ', '.join(f'"{k}"' for k in integer_kinds) + ']\n\n'
     o += '/-- codegen.c `align_to`: (n + align - 1) / align * align  (C `int`, `/` truncates; division by zero is the caller\'s problem) -/\n'
     o += 'def alignTo (n align : Int) : Int := Int.tdiv (n + align - 1) align * align\n\n'
     o += '/-- parse.c `align_down`: align_to(n - align + 1, align) -/\n'
